@@ -381,7 +381,13 @@ func (an *Analysis) handleStructFields(typ *types.Struct, ctx context) []StructF
 		if field.Embedded() {
 			if st, isStruct := fieldType.(*Struct); isStruct {
 				log.Printf("gomacro: embedded struct field %s will be flattened", field.Name())
-				out = append(out, st.Fields...)
+				for _, inner := range st.Fields {
+					// a data-generation opt-out on the embedded struct applies to its fields
+					if tag.Get("gomacro-data") == "ignore" && inner.Tag.Get("gomacro-data") != "ignore" {
+						inner.Tag = reflect.StructTag(strings.TrimSpace(string(inner.Tag) + ` gomacro-data:"ignore"`))
+					}
+					out = append(out, inner)
+				}
 				continue
 			} else {
 				log.Printf("gomacro: field %s: embedding will be ignored", field.Name())
